@@ -1,3 +1,4 @@
+from fractions import Fraction
 from typing import Any
 from statham.schema.exceptions import ValidationError
 from statham.schema.validation.base import Validator
@@ -61,8 +62,13 @@ class MultipleOf(Validator):
     def _validate(self, value: Any):
         multiple_of = self.params["multipleOf"]
         if isinstance(multiple_of, float):
-            quotient = value / multiple_of
-            if int(quotient) != quotient:
+            try:
+                quotient = value / multiple_of
+                is_multiple = int(quotient) == quotient
+            except OverflowError:
+                # The quotient does not fit in a float: decide exactly.
+                is_multiple = not Fraction(value) % Fraction(multiple_of)
+            if not is_multiple:
                 raise ValidationError
             return
         if value % multiple_of:
